@@ -1,6 +1,6 @@
 (* C11 — property theorems (statements only; proofs live in Proofs.v; vocabulary in Spec.v / Model.v). *)
 From Coq Require Import List NArith Bool.
-Require Import QV.C11.Model QV.C11.Spec QV.C11.Proofs QV.C11.Proofs_load QV.C11.Proofs_kill QV.C11.Guard QV.C11.Proofs_guard QV.C11.Proofs_exact QV.C11.Proofs_tight.
+Require Import QV.C11.Model QV.C11.Spec QV.C11.Proofs QV.C11.Proofs_load QV.C11.Proofs_kill QV.C11.Guard QV.C11.Proofs_guard QV.C11.Proofs_exact QV.C11.Proofs_tight QV.C11.Repair QV.C11.Proofs_repair.
 Import ListNotations.
 Open Scope N_scope.
 
@@ -280,3 +280,87 @@ Theorem C11_history_exact_nonvacuous :
             (3 <= length (view (fst (run_events current b (disk_of orphan_store) orphan_cache orphan_history))))%nat.
 Proof. exact orphan_history_nonvacuous. Qed.
 Print Assumptions C11_history_exact_nonvacuous.
+
+(* ROUND 4: THE REPAIR OF KNOWN FINDING dup-id-in-transaction (repo commit a5bca40).  `plan_of2` (Repair.v) is the model of
+   PulseStorage.__setitem__ / overwrite as they are NOW (the correspondence check runs against it): the encoder keeps the
+   objects of the running transaction (R1: a second object under a registered identifier is rejected, the same object is
+   not serialized again) and rejects a replacement that contains the stored object it replaces (R2).  The theorems
+   above about `plan_of` describe the code before this repair and are kept to state why it was needed.
+
+   For the repaired code guard_C11_dup_id is GONE: under the cycle guard alone (no hypothesis on the template at all)
+   the three clauses hold at every interruption point, for both kinds of interruption. *)
+Theorem C11_repaired_crash_safe : forall ck v b d c o k,
+  safe v b = true -> wf d c -> all_load (view d) -> del_in_scope d o -> guard2_cycle d c o = true ->
+  let steps := steps_of (plan_of2 v b d c o) in
+  let d' := after_crash ck b steps k d in
+  (main d' <> None /\ all_load (view d')) /\
+  (forall i, lookup i (view d') = lookup i (view d) \/ lookup i (view d') = lookup i (view (run steps d))) /\
+  (no_publish (firstn k steps) = true -> main d' = main d) /\
+  (ck = Raised -> (k < length steps)%nat ->
+   match b with BDict => True | BFs => tmpf d' = None | BZip => tmpz d' = None end).
+Proof. exact crash_safe2_kinds. Qed.
+Print Assumptions C11_repaired_crash_safe.
+
+(* the exact theorem for the repaired code: (b), (c) without any guard; (a) everywhere iff guard2_exact *)
+Theorem C11_repaired_crash_safe_exact : forall v b d c o,
+  safe v b = true -> wf d c -> all_load (view d) -> del_in_scope d o ->
+  let steps := steps_of (plan_of2 v b d c o) in
+  (forall ck k, let d' := after_crash ck b steps k d in
+     (forall i, lookup i (view d') = lookup i (view d) \/ lookup i (view d') = lookup i (view (run steps d))) /\
+     (no_publish (firstn k steps) = true -> main d' = main d)) /\
+  (guard2_exact d c o = true <->
+   forall ck k, let d' := after_crash ck b steps k d in main d' <> None /\ all_load (view d')).
+Proof. exact crash_safe_exact2_kinds. Qed.
+Print Assumptions C11_repaired_crash_safe_exact.
+
+Theorem C11_repaired_cycle_guard_suffices : forall v b d c o,
+  safe v b = true -> wf d c -> all_load (view d) -> del_in_scope d o ->
+  guard2_cycle d c o = true -> guard2_exact d c o = true.
+Proof. exact cycle2_implies_exact2. Qed.
+Print Assumptions C11_repaired_cycle_guard_suffices.
+
+(* the buffer of the repaired encoder: duplicate free and ordered children before parents, for EVERY template *)
+Theorem C11_repaired_children_before_parents : forall (s : store) (c : cache) n st,
+  (forall i, has i c = true -> lookup i s <> None) ->
+  collect2 (nid_of n) (keys s) c n ([], []) = Ok st ->
+  NoDup (keys (fst st)) /\ ordered (keys s) (proj (fst st)).
+Proof.
+  intros s c n st Hc H. destruct (collect2_top s c n st Hc H) as (ND & OR & _). split; assumption.
+Qed.
+Print Assumptions C11_repaired_children_before_parents.
+
+(* what the repair rejects (before any write): the witness of C11_dup_id_refuted and an object nested inside its own
+   replacement - the model of the code before the repair performs both and is outside the exact guard there *)
+Theorem C11_repair_rejects :
+  (forall b, plan_of2 current b (disk_of []) [] (OOverwrite dup_witness) = PErr EClash) /\
+  (forall b, plan_of2 current b (disk_of nest_store) nest_cache (OOverwrite nest_tmpl) = PErr EClash) /\
+  guard_C11_exact (disk_of []) [] (OOverwrite dup_witness) = false /\
+  guard_C11_exact (disk_of nest_store) nest_cache (OOverwrite nest_tmpl) = false.
+Proof. exact repair_rejects. Qed.
+Print Assumptions C11_repair_rejects.
+
+(* non-vacuity: a sub-template shared three times at two depths under a stored root passes, and the repaired code
+   does on it what the code did before *)
+Theorem C11_repair_nonvacuous :
+  wf (disk_of share_store) share_cache /\ all_load (view (disk_of share_store)) /\
+  guard_C11_dup_id share_tmpl = true /\
+  guard2_cycle (disk_of share_store) share_cache (OOverwrite share_tmpl) = true /\
+  forall b, plan_of2 current b (disk_of share_store) share_cache (OOverwrite share_tmpl)
+            = plan_of current b (disk_of share_store) share_cache (OOverwrite share_tmpl) /\
+            (3 <= length (steps_of (plan_of2 current b (disk_of share_store) share_cache (OOverwrite share_tmpl))))%nat.
+Proof. exact repair_nonvacuous. Qed.
+Print Assumptions C11_repair_nonvacuous.
+
+(* histories of the repaired code (completed / raised / killed operations; every operation inside guard2_exact in the
+   state it starts in, deletions of entries nothing refers to) keep `wf` and "everything loads" *)
+Theorem C11_repaired_history_safe : forall v b l d c,
+  safe v b = true -> wf d c -> all_load (view d) -> history_ok2 v b d c l ->
+  wf (fst (run_events2 v b d c l)) (snd (run_events2 v b d c l)) /\ all_load (view (fst (run_events2 v b d c l))).
+Proof. exact history_safe2. Qed.
+Print Assumptions C11_repaired_history_safe.
+
+Theorem C11_repaired_history_nonvacuous :
+  forall b, history_ok2 current b (disk_of share_store) share_cache share_history /\
+            (4 <= length (view (fst (run_events2 current b (disk_of share_store) share_cache share_history))))%nat.
+Proof. exact history2_nonvacuous. Qed.
+Print Assumptions C11_repaired_history_nonvacuous.
